@@ -39,6 +39,9 @@ THEOREMS = [
     'C06.viewSet_new_refines', 'C06.viewSet_new_reads', 'C06.system_ops_delegate',
     # refinement: extend (values of every column of the result)
     'C06.refines_extend', 'C06.extend_index_sel', 'C06.tailSel_pos', 'C06.extend_self_rows', 'C06.extend_zero_rows',
+    # composite calls decompose into the building blocks above
+    'C06.extendInt_decomp', 'C06.propGetAtoms_decomp', 'C06.ixGet_decomp', 'C06.sysPropSetScaled_decomp',
+    'C06.propAtype_none_decomp',
     # copying operations: results in fresh buffers, operands unchanged
     'C06.frame_fresh_meaning', 'C06.extend_fresh_unchanged', 'C06.extendInt_fresh_unchanged',
     'C06.propGetAtoms_fresh_unchanged', 'C06.new_fresh_unchanged',
@@ -59,16 +62,17 @@ PARTIAL = {
         'writeRows old (positions zip cast broadcast rows), later duplicates win, no other property name and no other '
         'buffer changes), whole-column assignment to an existing key (viewSet_existing_refines) and to a new key '
         '(viewSet_new_refines: exact resulting state).',
-    'values after prop_atype, scale=True, and of the composite calls extend(int) / prop(index=) / atoms_extend / atoms_ix[...]':
-        'proved for these: the invariant (inv_step), freshness and operand_unchanged (extendInt_fresh_unchanged, '
-        'propGetAtoms_fresh_unchanged), and the values of their building blocks (refines_getItem, refines_deepcopy, '
-        'refines_extend with the closed forms extend_self_rows / extend_zero_rows: self rows ++ cast donor rows, zero '
-        'fill on either side; constructor on literals: viewSet_new_refines). Not proved: the closed form of the values '
-        'of the per-type table lookup of prop_atype (its literal is shown well-formed: picked_ok), the Cartesian image '
-        'written by scale=True, and the composition of the building blocks for extend(int) = Atoms(natoms=n) then '
-        'extend, prop(index=) = deepcopy(self[index]) and the System wrappers (atoms_extend = symbols, extend, optional '
-        'scaled write, System(...); atoms_ix[...] = getitem, symbols, System(...)). Covered on every run by the '
-        'correspondence and by the record-per-atom oracle.',
+    'composite calls (extend(int), prop(index=), atoms_ix[...], atoms_extend, prop_atype, scale=True)':
+        'their values are not restated as closed forms; instead each is proved to BE the sequence of building blocks '
+        'whose values are proved: extendInt_decomp (Atoms(natoms=n) then extend: refines_extend), propGetAtoms_decomp '
+        '(getitem then deepcopy: refines_getItem, refines_deepcopy), ixGet_decomp (getitem, symbols read, System(...)), '
+        'sysPropSetScaled_decomp (prop(key, index, value\') with value\' the exact Cartesian image computed by '
+        'Box.relToCart: refines_propSet), propAtype_none_decomp (view[key] = value[atype-1] as one whole-column '
+        'assignment: viewSet_existing_refines / viewSet_new_refines; the literal is shown well-formed by picked_ok). '
+        'Not decomposed: prop_atype(key, value, atype=t) (optional zero column, guard, boolean-mask assign: its steps '
+        'are covered by viewSet_new_refines and assign_spec but the composition is not stated) and atoms_extend '
+        '(symbols read, extend, optional scaled write of pos[self.natoms:], System(...)): for both the invariant and '
+        'the frame are proved and the values are covered on every run by the correspondence and the oracle.',
     'aliasing of slices':
         'GetItemRes.slice_is_view states that a basic slice of more than one atom holds the views p.arr[sel] of the '
         "operand's arrays (so writes through either are seen by both, refines_propSet's last clause says exactly "
